@@ -34,7 +34,12 @@ func ParseTime(value string) (Time, error) {
 	value = strings.TrimPrefix(value, "@T")
 	for _, l := range timeLayouts {
 		if t, err = time.Parse(l, value); err == nil {
-			return Time{t, layout(l)}, nil
+			// time.Parse accepts a fractional second even if the layout has none;
+			// keep it (to the millisecond) in the precision so that it is not hidden.
+			if l == secondLayout && t.Nanosecond() != 0 {
+				l = millisecondLayout
+			}
+			return Time{t.Truncate(time.Millisecond), layout(l)}, nil
 		}
 	}
 	return Time{}, fmt.Errorf("unable to parse time '%s': %w", value, err)
